@@ -13,9 +13,15 @@
 //!   c03.render                  twin printer against the Lean printer
 //!   c03.parse / .deep / .mutated  parse_with_lexer, parse_indirect_object, parse_stream on renderings
 //!   c03.seq                     sequences parsed one after the other
+//!   c03.cursor / c03.cursor.any parse_with_lexer with the cursor afterwards (`c03.parsec`, Model/ParserCursor): on the
+//!                               conformant renderings of c03.parse mode plain / on mutated renderings, token soup, noise
+//!   c03.tails                   the tails appended to renderings are exactly `Spec/Render.tails` (the proven ones)
 //! Oracles (the real library against the printer's input value, independent of the model):
 //!   c03.denotes                 the value read equals the value printed, the cursor rests behind its text
 //!   c03.sequence                the i-th parse of a sequence gives the i-th value and rests behind the i-th text
+//!   c03.restore                 after `Err` of parse_with_lexer the cursor is where the call started; after `Ok` it moved
+//!                               forward and stays inside the buffer (every case of c03.cursor and c03.cursor.any)
+//! The histogram of c03.render counts which layout freedoms of the syntax the renderings exercised (`freedom.*`).
 
 #[path = "c03_render.rs"]
 pub mod render;
@@ -622,6 +628,11 @@ pub fn both_sides(req: &str, model: &str) -> (String, String) {
             let p = imp_parse(mode, &bytes(2), num(3), num(4) as u16, num(5), &lens, ctx);
             (canon_parse_answer(mode, model), p.text)
         }
+        "c03.parsec" => {
+            let lens = f.get(5).and_then(|s| read_lens(s)).unwrap_or_default();
+            (canon_parsec_answer(model), imp_parsec(&bytes(1), num(2), num(3) as u16, num(4), &lens).text)
+        }
+        "c03.tails" => (sorted_list(model), own_tails()),
         _ => (model.to_string(), "unsupported-request".into()),
     }
 }
@@ -637,6 +648,7 @@ pub struct GenCfg {
     pub wild_names: bool,
 }
 
+/// exactly `Spec/Render.tails` (stream `c03.tails`); none of them turns an integer before it into a reference
 pub const TAILS: [&[u8]; 13] = [b"", b" ", b"\n", b"]", b">>", b"/X", b"(x)", b"<41>", b"[", b"endobj", b"% c\n", b" 1 0 obj", b"true"];
 
 pub fn gen_f32(rng: &mut Rng) -> f32 {
@@ -1143,6 +1155,11 @@ fn count_render(st: &mut Stream, c: &RCase) {
     st.count(&format!("mode={}", c.mode));
     st.count(len_bucket(c.text.len()));
     st.count(&format!("tail={}", String::from_utf8_lossy(&c.tail).replace('\n', "\\n")));
+    for (k, n) in FREEDOM_KEYS.iter().zip(c.stats.freedom.iter()) {
+        if *n > 0 {
+            *st.histogram.entry(k.to_string()).or_insert(0) += n;
+        }
+    }
 }
 
 fn count_oracle(or: &mut Oracle, c: &RCase) {
@@ -1172,18 +1189,27 @@ struct PCase {
 }
 
 fn gen_pcase(seed: u64, case: u64) -> PCase {
+    gen_pcase_opt(seed, case, false).expect("every case is generated when nothing is filtered")
+}
+
+/// the case `case` of `c03.parse`; with `only_plain`: `None` (before anything is rendered) unless it is parsed
+/// in mode plain — the cases of `c03.cursor`
+fn gen_pcase_opt(seed: u64, case: u64, only_plain: bool) -> Option<PCase> {
     let mut rng = Rng::derive(seed, "c03.parse", case);
     let cfg = GenCfg { bad_name_pct: 2, wild_names: false };
     let tail: &[u8] = *rng.pick(&TAILS);
     let id = (if rng.chance(1, 10) { *rng.pick(&[0u64, u64::MAX, u32::MAX as u64]) } else { rng.below(1000) }, if rng.chance(1, 6) { rng.below(70000) } else { 0 });
     let r = rng.below(100);
+    if only_plain && r >= 60 {
+        return None;
+    }
     let (c, pmode): (RCase, &'static str) = if r < 55 {
         let v = gen_val(&mut rng, 0, &cfg);
         (render_random(&mut rng, "val", v, tail, id, vec![]), "plain")
     } else if r < 60 {
         let levels = *rng.pick(&[19usize, 20, 21]);
         let v = gen_deep(&mut rng, levels, &cfg);
-        if rng.chance(1, 2) { (render_random(&mut rng, "val", v, tail, id, vec![]), "plain") } else { (render_random(&mut rng, "ind", v, tail, id, vec![]), "ind0") }
+        if rng.chance(1, 2) { (render_random(&mut rng, "val", v, tail, id, vec![]), "plain") } else if only_plain { return None } else { (render_random(&mut rng, "ind", v, tail, id, vec![]), "ind0") }
     } else if r < 80 {
         let v = gen_val(&mut rng, 0, &cfg);
         (render_random(&mut rng, "ind", v, tail, id, vec![]), if rng.chance(1, 2) { "ind0" } else { "ind1" })
@@ -1205,7 +1231,7 @@ fn gen_pcase(seed: u64, case: u64) -> PCase {
         _ => ((rng.below(1024) as u16) & !own, false),
     };
     let (flags, allowed) = if pmode == "stm" { (1023, true) } else { (flags, allowed) };
-    PCase { c, pmode, buf, pos: npre, flags, off, allowed }
+    Some(PCase { c, pmode, buf, pos: npre, flags, off, allowed })
 }
 
 fn pcase_request(p: &PCase) -> String {
@@ -1406,6 +1432,252 @@ fn mutated_stream(driver: &Driver, seed: u64, n: u64) -> Stream {
     st
 }
 
+// ---------------------------------------------------------------------------------------------------
+// the cursor after parse_with_lexer: `c03.parsec` (Model/ParserCursor.parseWithLexerC) and the oracle c03.restore
+
+pub struct CursorOut {
+    /// `ok <value> <cursor> <cursor>` (the position a successful parse reports IS the lexer's cursor) / `err <cursor>` / `panic`
+    pub text: String,
+    /// `ok` | `err` | `panic`
+    pub outcome: &'static str,
+    pub cursor: usize,
+}
+
+/// `parse_with_lexer` started at `pos`, then `Lexer::get_pos`
+pub fn imp_parsec(buf: &[u8], pos: usize, flags: u16, off: usize, lens: &LenMap) -> CursorOut {
+    catch_unwind(AssertUnwindSafe(|| {
+        let res = TestResolve::new(lens, false);
+        let mut lx = lexer_at(buf, pos, off);
+        let r = parse_with_lexer(&mut lx, &res, ParseFlags::from_bits_truncate(flags));
+        let cursor = lx.get_pos();
+        match r {
+            Ok(p) => CursorOut { text: format!("ok {} {} {}", show_canon(&prim_to_val(&p, &res)), cursor, cursor), outcome: "ok", cursor },
+            Err(_) => CursorOut { text: format!("err {}", cursor), outcome: "err", cursor },
+        }
+    }))
+    .unwrap_or_else(|_| CursorOut { text: "panic".into(), outcome: "panic", cursor: 0 })
+}
+
+/// the model's answer to `c03.parsec` in the form of `imp_parsec`
+pub fn canon_parsec_answer(ans: &str) -> String {
+    let f: Vec<&str> = ans.split(' ').collect();
+    match (f.first().copied(), f.len()) {
+        (Some("ok"), 4) => match read_val(f[1]) {
+            Some(v) => format!("ok {} {} {}", show_canon(&v), f[2], f[3]),
+            None => format!("ok unreadable:{} {} {}", f[1], f[2], f[3]),
+        },
+        (Some("ok"), _) => format!("malformed:{}", ans),
+        _ => ans.to_string(),
+    }
+}
+
+pub fn parsec_request(buf: &[u8], pos: usize, flags: u16, off: usize, lens: &LenMap) -> String {
+    format!("c03.parsec {} {} {} {} {}", hex(buf), pos, flags, off, show_lens(lens))
+}
+
+/// the property's own clause about the cursor: `None` = holds
+fn check_restore(out: &CursorOut, start: usize, len: usize) -> Option<(&'static str, String)> {
+    match out.outcome {
+        "err" if out.cursor != start => Some(("cursor-not-restored", format!("parse_with_lexer returned Err but the lexer stands at {} instead of the start position {}", out.cursor, start))),
+        "ok" if !(out.cursor > start && out.cursor <= len) => Some(("cursor-out-of-range", format!("parse_with_lexer returned Ok but the lexer stands at {} (start {}, buffer length {})", out.cursor, start, len))),
+        "panic" => Some(("panic", "parse_with_lexer panicked".into())),
+        _ => None,
+    }
+}
+
+struct CCase {
+    /// the stream that produced the case (for the replay): c03.cursor | c03.cursor.any | c03.cursor.witness
+    origin: &'static str,
+    seed: u64,
+    case: u64,
+    in_domain: bool,
+    kind: String,
+    buf: Vec<u8>,
+    pos: usize,
+    flags: u16,
+    off: usize,
+    lens: LenMap,
+}
+
+const CURSOR_WITNESSES: [(&str, &[u8], u16); 10] = [
+    ("unterminated string inside an array", b"[1 2 (a", 1023),
+    ("dictionary value cut off", b"<< /A 1 0", 1023),
+    ("dictionary key without a value", b"<< /A >>", 1023),
+    ("unterminated array", b"[1 2 3", 1023),
+    ("name with a cut-off escape", b"/#4", 1023),
+    ("integer where only a name is allowed", b"5", 16),
+    ("unterminated string", b"(abc", 1023),
+    ("hexadecimal string with a bad digit", b"<4g>", 1023),
+    ("unknown keyword", b"xyz", 1023),
+    ("empty buffer", b"", 1023),
+];
+
+/// every witness at start 0 and behind a 3-byte prefix
+fn cursor_witnesses() -> Vec<CCase> {
+    let mut out = vec![];
+    for (idx, (name, text, flags)) in CURSOR_WITNESSES.iter().enumerate() {
+        for (k, prefix) in [&b""[..], &b"7 ["[..]].iter().enumerate() {
+            let mut buf = prefix.to_vec();
+            buf.extend_from_slice(text);
+            // only the disallowed-flags witness is a conformant spelling
+            out.push(CCase { origin: "c03.cursor.witness", seed: 0, case: (idx * 2 + k) as u64, in_domain: *flags != 1023, kind: format!("witness: {}", name), buf, pos: prefix.len(), flags: *flags, off: 0, lens: vec![] });
+        }
+    }
+    out
+}
+
+/// the conformant renderings of `c03.parse` that are parsed in mode plain (same case numbers)
+fn gen_cursor_case(seed: u64, case: u64) -> Option<CCase> {
+    let p = gen_pcase_opt(seed, case, true)?;
+    let deep = nest(&p.c.value) > 20;
+    let kind = format!("{}{}", if deep { "too-deep " } else { "" }, if p.flags == 1023 { "flags=any" } else if p.allowed { "flags=restricted-allowed" } else { "flags=restricted-disallowed" });
+    Some(CCase { origin: "c03.cursor", seed, case, in_domain: !deep, kind, buf: p.buf, pos: p.pos, flags: p.flags, off: p.off, lens: p.c.lens })
+}
+
+const PSOUP: [&[u8]; 44] = [
+    b" ", b"\n", b"\r\n", b"\x00", b"% c\n", b"%x", b"<<", b">>", b"<", b">", b"[", b"]", b"(", b")", b"(a)", b"(a\\", b"<41>", b"<4", b"<4g>", b"/", b"/A", b"/#4", b"/#gg", b"/#41",
+    b"1", b"0", b"-3", b"4.5", b"+.", b"1.2.3", b"2147483648", b"1 0 R", b"0 0", b"R", b"true", b"false", b"null", b"nul", b"stream\n", b"endstream", b"obj", b"endobj", b"\xff", b"{",
+];
+
+/// mutated renderings, token soup, noise; any start position inside the buffer, any flags
+fn gen_cursor_any_case(seed: u64, case: u64) -> CCase {
+    let mut rng = Rng::derive(seed, "c03.cursor.any", case);
+    let cfg = GenCfg { bad_name_pct: 2, wild_names: false };
+    let mut lens = vec![];
+    let mut start = 0;
+    let (kind, buf): (&str, Vec<u8>) = match rng.below(10) {
+        0..=4 => {
+            let tail: &[u8] = *rng.pick(&TAILS);
+            let c = match rng.below(5) {
+                0..=2 => { let v = gen_val(&mut rng, 0, &cfg); render_random(&mut rng, "val", v, tail, (1, 0), vec![]) }
+                3 => { let v = gen_val(&mut rng, 0, &cfg); render_random(&mut rng, "ind", v, tail, (7, 0), vec![]) }
+                _ => { let (v, l) = gen_stream(&mut rng, &cfg, true); render_random(&mut rng, "val", v, tail, (7, 0), l) }
+            };
+            lens = c.lens.clone();
+            start = rng.usize(4);
+            let mut buf = rng.bytes(start);
+            let mut text = c.text;
+            let intact = rng.chance(1, 8);
+            if !intact { mutate(&mut rng, &mut text); }
+            buf.extend_from_slice(&text);
+            (if intact { "rendering (val / ind / stream text) read as a plain value" } else { "mutated-rendering" }, buf)
+        }
+        5..=7 => {
+            let mut b = vec![];
+            for _ in 0..rng.usize(16) {
+                b.extend_from_slice(if rng.chance(1, 4) { *rng.pick(&SOUP) } else { *rng.pick(&PSOUP) });
+                if rng.chance(1, 2) { b.push(b' '); }
+            }
+            ("token-soup", b)
+        }
+        8 => { let n = rng.usize(25); ("random-bytes", rng.bytes(n)) }
+        _ => { let n = rng.usize(13); ("alphabet-bytes", (0..n).map(|_| *rng.pick(&ALPHABET24)).collect()) }
+    };
+    let pos = match rng.below(6) { 0..=2 => start.min(buf.len()), 3 | 4 => rng.usize(buf.len() + 1), _ => buf.len() - rng.usize(buf.len().min(2) + 1) };
+    let flags = if rng.chance(1, 2) { 1023 } else { rng.below(1024) as u16 };
+    let off = if rng.chance(1, 4) { 1 + rng.usize(1000) } else { 0 };
+    CCase { origin: "c03.cursor.any", seed, case, in_domain: false, kind: kind.into(), buf, pos, flags, off, lens }
+}
+
+/// runs the cases: implementation against the oracle `c03.restore`, and against the model (`c03.parsec`) in the
+/// stream the case belongs to
+fn run_cursor_cases(driver: &Driver, cases: &[CCase], st: &mut Stream, any: &mut Stream, or: &mut Oracle) {
+    for chunk in cases.chunks(50_000) {
+        let mut reqs = vec![];
+        let mut imps = vec![];
+        for c in chunk {
+            let got = imp_parsec(&c.buf, c.pos, c.flags, c.off, &c.lens);
+            let start = c.pos.min(c.buf.len());
+            or.count(&format!("outcome={}", got.outcome));
+            or.count(&format!("origin={}", c.origin));
+            or.count(&format!("input={}", c.kind));
+            or.count(if start == 0 { "start=0" } else if start == c.buf.len() { "start=end-of-buffer" } else { "start=inside" });
+            if got.outcome == "ok" && got.cursor == c.buf.len() { or.count("ok-cursor=end-of-buffer"); }
+            let rq = parsec_request(&c.buf, c.pos, c.flags, c.off, &c.lens);
+            or.case(&rq, true, || json!({"input": c.kind, "text": String::from_utf8_lossy(&c.buf), "pos": c.pos, "flags": c.flags, "got": got.text}));
+            if let Some((sig, what)) = check_restore(&got, start, c.buf.len()) {
+                or.count(&format!("failure={}", sig));
+                or.fail(sig, &format!("{} ({})", what, c.kind), json!({"stream": c.origin, "seed": c.seed, "case": c.case, "input": c.kind, "buffer": hex(&c.buf), "pos": c.pos, "flags": c.flags,
+                    "file_offset": c.off, "lens": show_lens(&c.lens), "got": got.text, "text": String::from_utf8_lossy(&c.buf)}));
+            }
+            reqs.push(rq);
+            imps.push(got.text);
+        }
+        let resp = driver.ask(&reqs);
+        for (((rq, m), i), c) in reqs.iter().zip(resp.iter()).zip(imps.iter()).zip(chunk.iter()) {
+            let m = canon_parsec_answer(m);
+            let s = if c.in_domain { &mut *st } else { &mut *any };
+            s.count(&format!("outcome={}", m.split(' ').next().unwrap_or("")));
+            s.count(&format!("input={}", c.kind));
+            if c.off != 0 { s.count("file-offset=nonzero"); }
+            s.case(rq, &m, i, true);
+        }
+    }
+}
+
+/// a stored case of the cursor streams / of `c03.restore`: the input itself if the replay carries it, else regenerated
+fn cursor_replay_case(r: &Value, seed: u64, case: u64, stream: &str) -> Option<CCase> {
+    if let Some(buf) = r["buffer"].as_str().and_then(unhex) {
+        let num = |k: &str| r[k].as_u64().unwrap_or(0);
+        return Some(CCase { origin: "c03.cursor.any", seed, case, in_domain: false, kind: r["input"].as_str().unwrap_or("replayed input").to_string(), buf, pos: num("pos") as usize,
+            flags: r["flags"].as_u64().unwrap_or(1023) as u16, off: num("file_offset") as usize, lens: r["lens"].as_str().and_then(read_lens).unwrap_or_default() });
+    }
+    match stream {
+        "c03.cursor" => gen_cursor_case(seed, case),
+        "c03.cursor.witness" => cursor_witnesses().into_iter().find(|c| c.case == case),
+        _ => Some(gen_cursor_any_case(seed, case)),
+    }
+}
+
+fn cursor_streams(driver: &Driver, seed: u64, n_conformant: u64, n_any: u64) -> (Vec<Stream>, Oracle) {
+    let mut st = Stream::new("c03.cursor", true);
+    let mut any = Stream::new("c03.cursor.any", false);
+    let mut or = Oracle::new("c03.restore");
+    // deterministic witnesses first
+    run_cursor_cases(driver, &cursor_witnesses(), &mut st, &mut any, &mut or);
+    let mut lo = 0;
+    while lo < n_conformant {
+        let hi = (lo + 50_000).min(n_conformant);
+        let cases: Vec<CCase> = (lo..hi).filter_map(|case| gen_cursor_case(seed, case)).collect();
+        run_cursor_cases(driver, &cases, &mut st, &mut any, &mut or);
+        lo = hi;
+    }
+    let mut lo = 0;
+    while lo < n_any {
+        let hi = (lo + 50_000).min(n_any);
+        let cases: Vec<CCase> = (lo..hi).map(|case| gen_cursor_any_case(seed, case)).collect();
+        run_cursor_cases(driver, &cases, &mut st, &mut any, &mut or);
+        lo = hi;
+    }
+    (vec![st, any], or)
+}
+
+// ---------------------------------------------------------------------------------------------------
+// the tails are the proven ones
+
+fn sorted_list(s: &str) -> String {
+    let mut v: Vec<&str> = s.split(',').collect();
+    v.sort();
+    v.join(",")
+}
+
+/// the harness's tails in the notation of `c03.tails`, sorted
+pub fn own_tails() -> String {
+    sorted_list(&TAILS.iter().map(|t| hex(t)).collect::<Vec<_>>().join(","))
+}
+
+/// the tails appended to renderings are exactly `Spec/Render.tails` (for which `Lemmas/RenderTail` is proved)
+fn tails_stream(driver: &Driver) -> Stream {
+    let mut st = Stream::new("c03.tails", true);
+    st.exhaustive = true;
+    let rq = "c03.tails".to_string();
+    let resp = driver.ask(&[rq.clone()]);
+    let (m, i) = both_sides(&rq, &resp[0]);
+    *st.histogram.entry("tails".into()).or_insert(0) += TAILS.len() as u64;
+    st.case(&rq, &m, &i, true);
+    st
+}
+
 fn gen_str_case(seed: u64, case: u64) -> (Vec<u8>, bool, Vec<u8>, usize, usize) {
     let mut rng = Rng::derive(seed, "c03.str", case);
     let mut s = gen_string(&mut rng);
@@ -1569,6 +1841,14 @@ pub fn run(driver: &Driver, seed: u64, thorough: bool, replay: Option<&Value>) -
             "c03.witness.denotes" => { let mut or = Oracle::new("c03.denotes"); run_witnesses(&mut or, &denotes_witnesses(), stream, Some(case)); rep.oracles.push(or); }
             "c03.witness.sequence" => { let mut or = Oracle::new("c03.sequence"); run_witnesses(&mut or, &sequence_witnesses(), stream, Some(case)); rep.oracles.push(or); }
             "c03.seq" => { let (st, or) = seq_streams(driver, seed, case, case + 1, &mut render_st); rep.streams.push(st); rep.oracles.push(or); rep.streams.push(render_st); }
+            "c03.cursor" | "c03.cursor.any" | "c03.cursor.witness" | "c03.restore" => {
+                let mut st = Stream::new("c03.cursor", true);
+                let mut any = Stream::new("c03.cursor.any", false);
+                let mut or = Oracle::new("c03.restore");
+                if let Some(c) = cursor_replay_case(r, seed, case, stream) { run_cursor_cases(driver, &[c], &mut st, &mut any, &mut or); }
+                rep.streams.push(st); rep.streams.push(any); rep.oracles.push(or);
+            }
+            "c03.tails" => rep.streams.push(tails_stream(driver)),
             "c03.str" => { let mut or = Oracle::new("c03.denotes"); let sts = str_streams(driver, seed, case, case + 1, 0, &mut or); rep.streams.extend(sts); rep.oracles.push(or); }
             _ => { let (sts, or) = parse_streams(driver, seed, case, case + 1, &mut render_st); rep.streams.extend(sts); rep.oracles.push(or); rep.streams.push(render_st); }
         }
@@ -1595,11 +1875,17 @@ pub fn run(driver: &Driver, seed: u64, thorough: bool, replay: Option<&Value>) -
     let (st, or) = seq_streams(driver, seed, 0, 15000 * k, &mut render_st);
     rep.streams.push(st);
     merge_oracle(&mut sq, or);
+    let never: Vec<&str> = FREEDOM_KEYS.iter().copied().filter(|k| render_st.histogram.get(*k).copied().unwrap_or(0) == 0).collect();
+    rep.notes.push(format!("layout freedoms of the printer never exercised by the renderings of this run (c03.render histogram `freedom.*`, {} keys): {}", FREEDOM_KEYS.len(), if never.is_empty() { "none".to_string() } else { never.join(", ") }));
     rep.streams.push(render_st);
     rep.streams.push(mutated_stream(driver, seed, 20000 * k));
+    let (sts, restore) = cursor_streams(driver, seed, 50000 * k, 20000 * k);
+    rep.streams.extend(sts);
+    rep.streams.push(tails_stream(driver));
     rep.notes.push("the cursor of `parse_stream` (mode stm) cannot be observed through the public API: value only".into());
     rep.oracles.push(den);
     rep.oracles.push(sq);
+    rep.oracles.push(restore);
     rep
 }
 
